@@ -286,7 +286,7 @@ def judge_c02(lines, desc, i):
 
 
 # ---------------------------------------------------------------------------------------------- C03
-REL_RE = re.compile(r"^\[?([A-Za-z][A-Za-z0-9@]*)(?:([+-])(\d+))?(,PCR)?\]?$")
+REL_RE = re.compile(r"^\[?([A-Za-z][A-Za-z0-9@]*)(?:([+-])(\d+|[A-Za-z][A-Za-z0-9@]*))?(,PCR)?\]?$")
 
 
 def judge_c03(drv, lines, desc, i):
@@ -318,7 +318,12 @@ def judge_c03(drv, lines, desc, i):
         is_branch = ins.is_short_branch or ins.is_long_branch
         if not is_branch and not m.group(4):
             continue
-        target = addr_of[m.group(1)] + (int(m.group(3)) if m.group(3) else 0) * (-1 if m.group(2) == "-" else 1)
+        kc = m.group(3)
+        if kc and not kc.isdigit():
+            if kc not in desc.get("equ", {}):
+                continue                    # a symbolic constant this case does not describe
+            kc = desc["equ"][kc]
+        target = addr_of[m.group(1)] + (int(kc) if kc else 0) * (-1 if m.group(2) == "-" else 1)
         a, sz, hb = st[k]
         d = decode_stmt(drv, hb)
         if d is None or d[2] != 0:
@@ -434,6 +439,8 @@ def judge_c05(lines, desc, i):
             hb = "".join(b for j, (_, _, b) in enumerate(i[4]) if j == k)
     if hb != desc["bytes"]:
         return "%s -> %s, specified %s" % (lines[desc.get("stmt", 0)].strip()[:60], hb[:60], desc["bytes"][:60])
+    if "image_prefix" in desc and not i[1].startswith(desc["image_prefix"]):
+        return "%s: the image is %s, the statements around the directive emit %s" % (lines[desc.get("stmt", 0)].strip()[:60], i[1][:40], desc["image_prefix"])
     return None
 
 
